@@ -365,7 +365,7 @@ class Parser:
             condition = self.parse_expression(pstate, _PREC_IF)
             pstate.expect(_else)
             pstate.advance()
-            else_expr = self.parse_expression(pstate)
+            else_expr = self.parse_expression(pstate, _PREC_IF - 1)
             left_exp = If(condition, then_expr, else_expr)
             did_something = True
         elif next_tag is _dot and _PREC_CALL > min_precedence:
